@@ -19,7 +19,7 @@ def demo_result(k):
 for d in sorted(glob.glob(os.path.join(root, "_out", "*"))):
     k = os.path.basename(d)
     patch = os.path.join(d, "patch.diff")
-    if not os.path.exists(patch):
+    if not os.path.exists(patch) or k in os.environ.get("VERIF_CONFIRM_SKIP", "").split(","):
         continue
     name = "%s-%s%s" % (pid, tag, k)
     res = dict(applies=False, tests_pass_with_mutant=False, demo_fails_with_mutant=False, demo_passes_without=False)
